@@ -340,6 +340,63 @@ fn body(ids: Vec<usize>, allow_queued: bool) -> impl Fn(&Ch) -> Run + Sync + Sen
   }
 }
 
+/// Generated worlds: every world of the core space, every schedule.
+fn body_worlds(space: crate::world::Space) -> impl Fn(&Ch) -> Run + Sync + Send {
+  move |ch: &Ch| {
+    let mut run = Run::default();
+    let mut w = space.generate(ch, 2, None);
+    w.remote = true; // remote modules also exercise the lockfile writes
+    let roots = w.roots();
+    let is_dynamic = ch.flag("dynamic_roots");
+    let build = |mode: SchedMode, hook: bool| -> (Value, Value, Vec<String>, Vec<String>, Result<(), DriveError>) {
+      let sched = Sched::new(mode);
+      let loader = ScriptedLoader::new(sched.clone());
+      w.install(&loader);
+      let mut locker = RecordingLocker::default();
+      let mut graph = ModuleGraph::new(GraphKind::All);
+      if hook {
+        let ch2 = ch.clone();
+        deno_graph::verif_hooks::set_drain_order_callback(Some(Box::new(move |site, n| {
+          let label: &'static str = if site == "deferred" { "drain_deferred" } else { "drain_dynamic_branches" };
+          ch2.permutation(label, n, true)
+        })));
+      }
+      let r = build_graph(
+        &mut graph,
+        roots.clone(),
+        &loader,
+        BuildCfg { is_dynamic, unstable_text: true, unstable_bytes: true, locker: Some(&mut locker), ..Default::default() },
+        ch,
+      );
+      deno_graph::verif_hooks::set_drain_order_callback(None);
+      let mut writes = locker.log.borrow().clone();
+      writes.sort();
+      let o = obs(&graph);
+      (json!([o["slots"], o["redirects"], o["roots"]]), json!(locker.remote.iter().map(|(k, v)| (k.to_string(), json!(v))).collect::<serde_json::Map<_, _>>()), writes, sched.events.borrow().clone(), r)
+    };
+    let reference = build(SchedMode::Immediate, false);
+    let got = build(SchedMode::Gated, true);
+    run.evals = 1;
+    let case = |extra: Value| json!({"world": w.describe(), "dynamic_roots": is_dynamic, "schedule": got.3, "detail": extra});
+    if got.4.is_err() {
+      run.violate("build-did-not-finish@generated-world", format!("{:?}", got.4), case(json!({})));
+    } else if got.0 != reference.0 {
+      let (_, txt) = crate::props::c17::diff_detail(&got.0[0], &reference.0[0]);
+      run.violate("graph-depends-on-schedule@generated-world", format!("differs from the all-ready run: {txt}"), case(json!({"explored": got.0, "all_ready": reference.0})));
+    } else if got.1 != reference.1 || got.2 != reference.2 {
+      run.violate("lockfile-depends-on-schedule@generated-world", "lockfile content or writes differ from the all-ready run", case(json!({"explored": got.2, "all_ready": reference.2})));
+    }
+    run.state_key = hash_of(&(w.key(), is_dynamic, &got.3));
+    run.extra_states.push((w.key(), true));
+    run.nontrivial = got.3.len() >= 3;
+    run.outcome_key = hash_of(&(w.key(), &got.3));
+    if ch.describe() {
+      run.sample = Some(case(json!({})));
+    }
+    run
+  }
+}
+
 pub fn prop(tier: Tier) -> Prop {
   let parts = match tier {
     Tier::Quick => vec![Part {
@@ -353,6 +410,12 @@ pub fn prop(tier: Tier) -> Prop {
       body: Box::new(body(vec![7], false)),
       modes: vec![Mode::Deviations(2), Mode::Deviations(3)],
       what: "registry package with embedded module info: deferred content loads (FuturesUnordered), deviation-bounded schedules",
+    },
+    Part {
+      name: "generated-worlds",
+      body: Box::new(body_worlds(crate::world::Space::core(3, 3, crate::world::CORE_KINDS_QUICK))),
+      modes: vec![Mode::Full],
+      what: "every world of the core alphabet (3 remote specifiers, <= 3 edges from import / dynamic import / import type, static or dynamic roots) x every completion order and drain permutation",
     }],
     Tier::Thorough => vec![
       Part {
@@ -373,13 +436,19 @@ pub fn prop(tier: Tier) -> Prop {
         modes: vec![Mode::Deviations(3), Mode::Deviations(4), Mode::Deviations(5)],
         what: "registry package with embedded module info: deferred content loads, both executors",
       },
+      Part {
+        name: "generated-worlds",
+        body: Box::new(body_worlds(crate::world::Space::core(3, 3, crate::world::CORE_KINDS))),
+        modes: vec![Mode::Full],
+        what: "every world of the core alphabet with kinds TypeScript / missing / JavaScript / JSON / redirect x every completion order and drain permutation",
+      },
     ],
   };
   Prop {
     id: "C04",
     rule: "state = (collision world, executor, schedule); a schedule is the order in which the driver completes outstanding gated Loader futures / polls queued tasks plus the permutation in which each hash-map drain (dynamic branches, deferred loads) hands out its entries (feature-guarded hook). Every complete run's graph observation (slots incl. error text and referrers, redirects, packages), final lockfile content and multiset of lockfile writes must equal the run in which every future is ready immediately. distinct_outcomes counts distinct event orders; non-trivial = schedule with >= 3 completion events.".into(),
     assumptions: vec![
-      "12 hand-built collision worlds (see samples); worlds with more than ~8 simultaneously outstanding operations are not included".into(),
+      "12 hand-built collision worlds (see samples) plus every generated world of the core alphabet; worlds with more than ~8 simultaneously outstanding operations are not included".into(),
       "extra suspensions of an already-released future are not injected (a released future is ready at its next poll)".into(),
       "hash-map iteration order is explored through the verif_hooks drain-order hook; order-preserving containers are left alone by the hook".into(),
     ],
